@@ -80,15 +80,25 @@ def props_theorems(prop: str):
     return [prefix + m for m in re.findall(r"^theorem\s+([A-Za-z_][\w']*)", src, re.M)]
 
 
-def lean_sources_for(prop: str):
-    """source files whose text is audited for forbidden constructs: every .lean under Verif/"""
-    files = []
-    for root, _, names in os.walk(os.path.join(LEAN, "Verif")):
-        for n in names:
-            if n.endswith(".lean"):
-                files.append(os.path.join(root, n))
-    files.append(os.path.join(LEAN, "Main.lean"))
-    return files
+def lean_sources_for(prop: str, targets=None):
+    """source files whose text is audited for forbidden constructs: the Props targets of the property and everything under
+    Verif/ they import, transitively (files not imported by any target — e.g. proofs still being written for another
+    theorem — are not part of this property's check), plus the driver"""
+    roots = list(targets or []) or [f"Verif.Props.{prop}"]
+    roots.append("Main")
+    seen, todo, out = set(), list(roots), []
+    while todo:
+        mod = todo.pop()
+        if mod in seen or not (mod.startswith("Verif") or mod == "Main"):
+            continue
+        seen.add(mod)
+        path = os.path.join(LEAN, *mod.split(".")) + ".lean"
+        if not os.path.exists(path):
+            continue
+        out.append(path)
+        for m in re.finditer(r"^\s*(?:public\s+)?import\s+(\S+)", open(path).read(), re.M):
+            todo.append(m.group(1))
+    return sorted(out)
 
 
 class Ctx:
@@ -177,7 +187,7 @@ def build_and_audit(prop, mod, ctx, evidence):
                 else:
                     discharged += 1
     # 4. forbidden constructs in sources
-    for path in lean_sources_for(prop):
+    for path in lean_sources_for(prop, targets):
         src = strip_comments(open(path).read())
         m = FORBIDDEN.search(src)
         if m:
